@@ -88,6 +88,9 @@ def parse_mir(text):
     return M
 
 
+DISCRIMINANTS = {}      # enum name -> {variant: declared discriminant value (None = not evaluable)}
+
+
 def parse_enums(src_texts):
     """enum name -> [variant names] from rust source texts (declaration order = discriminant order)"""
     enums = {}
@@ -102,12 +105,19 @@ def parse_enums(src_texts):
                 elif c == '}': depth -= 1
                 if depth: body.append(c)
                 j += 1
-            vs = []
+            vs = []; nxt = 0; disc = {}
             for part in split_top(''.join(body)):
                 part = re.sub(r'#\[[^\]]*\]', '', part).strip()
                 vm = re.match(r'(\w+)', part)
-                if vm: vs.append(vm.group(1))
-            enums.setdefault(m.group(1), vs)
+                if not vm: continue
+                dm = re.search(r'=\s*(-?(?:0x[0-9a-fA-F_]+|\d[\d_]*))\s*(?:[ui]\d+|[ui]size)?\s*$', part)
+                if dm: nxt = int(dm.group(1).replace('_', ''), 0)
+                elif '=' in part.split('(')[0].split('{')[0]: nxt = None          # discriminant given by an expression we do not evaluate
+                vs.append(vm.group(1)); disc[vm.group(1)] = nxt
+                if nxt is not None: nxt += 1
+            if m.group(1) not in enums:
+                enums[m.group(1)] = vs
+                DISCRIMINANTS[m.group(1)] = disc
     return enums
 
 
